@@ -90,7 +90,15 @@ class DagWalker(Walker):
     def iter_walk(self, expression: FNode, **kwargs):
         """Performs an iterative walk of the DAG"""
         self.stack.append((False, expression))
-        self._process_stack(**kwargs)
+        try:
+            self._process_stack(**kwargs)
+        except BaseException:
+            # a walk function raised: do not leave a half-processed stack (and,
+            # for one-time caches, partial results) behind for the next call
+            self.stack.clear()
+            if self.invalidate_memoization:
+                self.memoization.clear()
+            raise
         res_key = self._get_key(expression, **kwargs)
         return self.memoization[res_key]
 
